@@ -50,6 +50,7 @@ structure Desc where
   canRead : Bool
   canWrite : Bool
   isDir : Bool
+  name : List String := []       -- path from the mount root at open time (`FileEntry.Name`); used by the as-is variant only
 deriving Repr, Inhabited, DecidableEq
 
 structure FS where
@@ -58,6 +59,9 @@ structure FS where
   ctx : Ctx
   descs : List (Nat × Desc)       -- keyed by `Entry.id`
   selfNoop : Bool                 -- finding switch F17 (see `Ctx.renumber`)
+  byName : Bool := false          -- finding switch F24: `true` = pinned tree: a path relative to a directory
+                                  -- descriptor is resolved as <name of the directory when it was opened>/<path> from the
+                                  -- mount root (`atPath`: `f.Name + "/" + pathName`); `false` = POSIX: from the directory itself
 deriving Repr
 
 def aget {β} (l : List (Nat × β)) (k : Nat) : Option β := (l.find? (·.1 == k)).map (·.2)
@@ -72,11 +76,11 @@ def addChild (n : Node) (name : String) (ino : Nat) : Node :=
 def delChild (n : Node) (name : String) : Node := { n with children := n.children.filter (·.1 != name) }
 
 /-- root inode 0; stdio 0-2 and the pre-open 3 (description of the root directory) -/
-def FS.init (selfNoop : Bool) : FS :=
+def FS.init (selfNoop : Bool) (byName : Bool := false) : FS :=
   { nodes := [(0, { isDir := true, content := [], children := [] })], nextIno := 1,
     ctx := Ctx.init,
     descs := [(3, { ino := 0, offset := 0, append := false, canRead := true, canWrite := false, isDir := true })],
-    selfNoop := selfNoop }
+    selfNoop := selfNoop, byName := byName }
 
 /-- walk `comps` from directory `start` -/
 def FS.resolve (fs : FS) : Nat → List String → Except E Nat
@@ -118,6 +122,14 @@ def FS.atDir (fs : FS) (fd : Int) : Except E Nat :=
   | .error e => .error e
   | .ok (_, d) => if d.isDir then .ok d.ino else .error .notdir
 
+/-- where a path argument is resolved: (start directory, components) -/
+def FS.atPath (fs : FS) (fd : Int) (comps : List String) : Except E (Nat × List String) :=
+  match fs.desc fd with
+  | .error e => .error e
+  | .ok (_, d) =>
+    if !d.isDir then .error .notdir
+    else if fs.byName then .ok (0, d.name ++ comps) else .ok (d.ino, comps)
+
 structure OpenArgs where
   creat : Bool
   directory : Bool
@@ -139,10 +151,10 @@ def FS.install (fs : FS) (d : Desc) : FS × Nat :=
   ({ fs with ctx := r.1, descs := aset fs.descs fs.ctx.next d }, r.2)
 
 /-- path_open -/
-def FS.pathOpen (fs : FS) (dirfd : Int) (comps : List String) (a : OpenArgs) : FS × E × Nat :=
-  match fs.atDir dirfd with
+def FS.pathOpen (fs : FS) (dirfd : Int) (comps0 : List String) (a : OpenArgs) : FS × E × Nat :=
+  match fs.atPath dirfd comps0 with
   | .error e => (fs, e, 0)
-  | .ok start =>
+  | .ok (start, comps) =>
     if a.directory && a.creat then (fs, .inval, 0)
     else
       let (rd, wr) := a.mode
@@ -150,12 +162,12 @@ def FS.pathOpen (fs : FS) (dirfd : Int) (comps : List String) (a : OpenArgs) : F
         if n.isDir then
           if a.creat || wr || a.trunc then (fs, .isdir, 0)
           else
-            let r := fs.install { ino := ino, offset := 0, append := a.append, canRead := rd, canWrite := false, isDir := true }
+            let r := fs.install { ino := ino, offset := 0, append := a.append, canRead := rd, canWrite := false, isDir := true, name := comps }
             (r.1, .ok, r.2)
         else if a.directory then (fs, .notdir, 0)
         else
           let fs1 := if a.trunc then fs.setNode ino { n with content := [] } else fs
-          let r := fs1.install { ino := ino, offset := 0, append := a.append, canRead := rd, canWrite := wr, isDir := false }
+          let r := fs1.install { ino := ino, offset := 0, append := a.append, canRead := rd, canWrite := wr, isDir := false, name := comps }
           (r.1, .ok, r.2)
       if comps.isEmpty then
         match fs.node start with
@@ -180,7 +192,7 @@ def FS.pathOpen (fs : FS) (dirfd : Int) (comps : List String) (a : OpenArgs) : F
                 let ino := fs.nextIno
                 let fs1 := { fs with nextIno := ino + 1 }
                 let fs2 := (fs1.setNode ino { isDir := false, content := [], children := [] }).setNode p (addChild pn name ino)
-                let r := fs2.install { ino := ino, offset := 0, append := a.append, canRead := rd, canWrite := wr, isDir := false }
+                let r := fs2.install { ino := ino, offset := 0, append := a.append, canRead := rd, canWrite := wr, isDir := false, name := comps }
                 (r.1, .ok, r.2)
 
 def FS.fdClose (fs : FS) (fd : Int) : FS × E :=
@@ -279,10 +291,10 @@ def FS.fdSetSize (fs : FS) (fd : Int) (size : Int) : FS × E :=
     else if !d.canWrite then (fs, .inval)
     else (fs.setContent d.ino (truncateTo (fs.content d.ino) size.toNat), .ok)
 
-def FS.pathStat (fs : FS) (dirfd : Int) (comps : List String) : E × Nat × Nat :=
-  match fs.atDir dirfd with
+def FS.pathStat (fs : FS) (dirfd : Int) (comps0 : List String) : E × Nat × Nat :=
+  match fs.atPath dirfd comps0 with
   | .error e => (e, 0, 0)
-  | .ok start =>
+  | .ok (start, comps) =>
     match fs.resolve start comps with
     | .error e => (e, 0, 0)
     | .ok ino =>
@@ -292,10 +304,10 @@ def FS.pathStat (fs : FS) (dirfd : Int) (comps : List String) : E × Nat × Nat 
         if n.isDir then (.ok, Wz.Gen.WasiFs.FILETYPE_DIRECTORY, 0)
         else (.ok, Wz.Gen.WasiFs.FILETYPE_REGULAR_FILE, n.content.length)
 
-def FS.mkdir (fs : FS) (dirfd : Int) (comps : List String) : FS × E :=
-  match fs.atDir dirfd with
+def FS.mkdir (fs : FS) (dirfd : Int) (comps0 : List String) : FS × E :=
+  match fs.atPath dirfd comps0 with
   | .error e => (fs, e)
-  | .ok start =>
+  | .ok (start, comps) =>
     match fs.resolveParent start comps with
     | .error e => (fs, if comps.isEmpty then .exist else e)
     | .ok (p, name) =>
@@ -309,10 +321,10 @@ def FS.mkdir (fs : FS) (dirfd : Int) (comps : List String) : FS × E :=
           let fs1 := { fs with nextIno := ino + 1 }
           ((fs1.setNode ino { isDir := true, content := [], children := [] }).setNode p (addChild pn name ino), .ok)
 
-def FS.unlink (fs : FS) (dirfd : Int) (comps : List String) : FS × E :=
-  match fs.atDir dirfd with
+def FS.unlink (fs : FS) (dirfd : Int) (comps0 : List String) : FS × E :=
+  match fs.atPath dirfd comps0 with
   | .error e => (fs, e)
-  | .ok start =>
+  | .ok (start, comps) =>
     match fs.resolveParent start comps with
     | .error e => (fs, if comps.isEmpty then .isdir else e)
     | .ok (p, name) =>
@@ -326,10 +338,10 @@ def FS.unlink (fs : FS) (dirfd : Int) (comps : List String) : FS × E :=
           | none => (fs, .noent)
           | some n => if n.isDir then (fs, .isdir) else (fs.setNode p (delChild pn name), .ok)
 
-def FS.rmdir (fs : FS) (dirfd : Int) (comps : List String) : FS × E :=
-  match fs.atDir dirfd with
+def FS.rmdir (fs : FS) (dirfd : Int) (comps0 : List String) : FS × E :=
+  match fs.atPath dirfd comps0 with
   | .error e => (fs, e)
-  | .ok start =>
+  | .ok (start, comps) =>
     match fs.resolveParent start comps with
     | .error e => (fs, e)
     | .ok (p, name) =>
@@ -356,13 +368,13 @@ def FS.contains (fs : FS) : Nat → Nat → Nat → Bool
     | some n => n.children.any (fun c => fs.contains fuel c.2 ino)
 
 /-- path_rename (both paths relative to directories of the same mount; old ≠ new) -/
-def FS.rename (fs : FS) (fd1 : Int) (c1 : List String) (fd2 : Int) (c2 : List String) : FS × E :=
-  match fs.atDir fd1 with
+def FS.rename (fs : FS) (fd1 : Int) (c10 : List String) (fd2 : Int) (c20 : List String) : FS × E :=
+  match fs.atPath fd1 c10 with
   | .error e => (fs, e)
-  | .ok s1 =>
-    match fs.atDir fd2 with
+  | .ok (s1, c1) =>
+    match fs.atPath fd2 c20 with
     | .error e => (fs, e)
-    | .ok s2 =>
+    | .ok (s2, c2) =>
       match fs.resolveParent s1 c1 with
       | .error e => (fs, e)
       | .ok (p1, n1) =>
